@@ -435,8 +435,15 @@ func (p *untypedParamBinder) tryUnmarshaler(target reflect.Value, defaultValue i
 	// When a type implements encoding.TextUnmarshaler we'll use that instead of reflecting some more
 	if reflect.PtrTo(target.Type()).Implements(textUnmarshalType) {
 		if defaultValue != nil && len(data) == 0 {
-			target.Set(reflect.ValueOf(defaultValue))
-			return true, nil
+			defVal := reflect.ValueOf(defaultValue)
+			if defVal.Type().AssignableTo(target.Type()) {
+				target.Set(defVal)
+				return true, nil
+			}
+			// a default declared in the spec is text: it is parsed like a value sent by the client
+			if text, ok := defaultValue.(string); ok {
+				data = text
+			}
 		}
 		value := reflect.New(target.Type())
 		if err := value.Interface().(encoding.TextUnmarshaler).UnmarshalText([]byte(data)); err != nil {
